@@ -25,6 +25,8 @@ pub trait Calc {
     fn text(&self, s: &str) -> u32;
     fn wide(&self, a: i64, b: u8, c: i16) -> i64;
     fn wide2(&self, a: u64, b: i8, c: u16) -> (u16, i64);
+    fn nest(&self, a: ([[u32; 2]; 2], [[u32; 2]; 2]), b: u8) -> u32;
+    fn nest_ret(&self, a: u8) -> ([(u16, u16); 2], [(u16, u16); 2]);
 }
 pub static mut SEEN: [u64; 10] = [0; 10];
 pub static mut CALLS: u32 = 0;
@@ -65,6 +67,15 @@ impl Calc for CalcImpl {
         unsafe { SEEN[0] = a; SEEN[1] = b as u8 as u64; SEEN[2] = c as u64; CALLS += 1; }
         (c, a as i64)
     }
+    fn nest(&self, a: ([[u32; 2]; 2], [[u32; 2]; 2]), b: u8) -> u32 {
+        unsafe { SEEN = [a.0[0][0] as u64, a.0[0][1] as u64, a.0[1][0] as u64, a.0[1][1] as u64, a.1[0][0] as u64, a.1[0][1] as u64, a.1[1][0] as u64, a.1[1][1] as u64, b as u64, 0]; CALLS += 1; }
+        a.1[1][1] ^ b as u32
+    }
+    fn nest_ret(&self, a: u8) -> ([(u16, u16); 2], [(u16, u16); 2]) {
+        unsafe { SEEN[0] = a as u64; CALLS += 1; }
+        let w = a as u16;
+        ([(w, w + 1), (w + 2, w + 3)], [(w + 4, w + 5), (w + 6, w + 7)])
+    }
     fn text(&self, s: &str) -> u32 {
         let b = s.as_bytes();
         unsafe { SEEN[0] = b.len() as u64; SEEN[1] = if b.len() > 0 { b[0] as u64 } else { 0 }; SEEN[2] = if b.len() > 1 { b[1] as u64 } else { 0 }; CALLS += 1; }
@@ -73,7 +84,7 @@ impl Calc for CalcImpl {
 }
 fn conn(masks: u64) -> AbiConnection<dyn Calc> {
     let imp: Box<dyn Calc> = Box::new(CalcImpl);
-    connect::<dyn Calc, dyn Calc>(imp, 0, vec![m(Some(0), masks), m(Some(1), masks), m(Some(2), masks), m(Some(3), masks), m(Some(4), masks), m(Some(5), masks), m(Some(6), masks), m(Some(7), masks), m(Some(8), masks), m(Some(9), masks)])
+    connect::<dyn Calc, dyn Calc>(imp, 0, vec![m(Some(0), masks), m(Some(1), masks), m(Some(2), masks), m(Some(3), masks), m(Some(4), masks), m(Some(5), masks), m(Some(6), masks), m(Some(7), masks), m(Some(8), masks), m(Some(9), masks), m(Some(10), masks), m(Some(11), masks)])
 }
 pub mod q {
     use super::*;
@@ -94,6 +105,31 @@ pub mod q {
         let r = c.wide(a, b, cc);
         assert!(unsafe { SEEN[0] == a as u64 && SEEN[1] == b as u64 && SEEN[2] == cc as u16 as u64 }, "C09: the implementation received different argument values (i64/u8/i16)");
         assert!(r == a ^ 0x55, "C09: the caller received a different i64 return value");
+        std::mem::forget(c);
+        kani::cover!(true, "reached end");
+    });
+    // fixed-size compound types (tuples of arrays of arrays / of tuples): element size != element alignment
+    kproof!(nested_fixed_arg, 6, {
+        let a: ([[u32; 2]; 2], [[u32; 2]; 2]) = kani::any();
+        let b: u8 = kani::any();
+        let c = conn(0);
+        let r = c.nest(a, b);
+        assert!(unsafe { SEEN[0] == a.0[0][0] as u64 && SEEN[3] == a.0[1][1] as u64 && SEEN[4] == a.1[0][0] as u64 && SEEN[7] == a.1[1][1] as u64 && SEEN[8] == b as u64 },
+                "C09: the implementation received different argument values (tuple of nested arrays)");
+        assert!(unsafe { SEEN[1] == a.0[0][1] as u64 && SEEN[2] == a.0[1][0] as u64 && SEEN[5] == a.1[0][1] as u64 && SEEN[6] == a.1[1][0] as u64 },
+                "C09: the implementation received different argument values (tuple of nested arrays, inner)");
+        assert!(r == a.1[1][1] ^ b as u32, "C09: the caller received a different return value");
+        std::mem::forget(c);
+        kani::cover!(true, "reached end");
+    });
+    kproof!(nested_fixed_ret, 6, {
+        let a: u8 = kani::any();
+        let c = conn(0);
+        let r = c.nest_ret(a);
+        let w = a as u16;
+        assert!(unsafe { SEEN[0] == a as u64 }, "C09: the implementation received a different argument value");
+        assert!(r.0[0] == (w, w + 1) && r.0[1] == (w + 2, w + 3) && r.1[0] == (w + 4, w + 5) && r.1[1] == (w + 6, w + 7),
+                "C09: the caller received a different return value (tuple of arrays of tuples)");
         std::mem::forget(c);
         kani::cover!(true, "reached end");
     });
